@@ -4,7 +4,8 @@ The REAL aioftp.Server runs on harness/simnet.py (in-memory network, virtual clo
 no wall time and fires at an exact virtual instant).  For every script of a small corpus x every prefix
 length k (the peer performs the first k steps and then stalls for good: stops sending on the control
 channel / never connects the data channel / connects and never reads / stops sending) x timeout
-combinations (idle, socket, wait_future each in {None, 0, 2, 5, 30}) the harness measures the virtual
+combinations (idle, socket, wait_future each in {None, 0, 2, 5, 30}; 0 = zero seconds: the session is over at
+its start) the harness measures the virtual
 instants at which the server closes the control connection, closes the data connection and sends 425,
 and compares them EXACTLY with the extracted Coq model (coq/Model/Timeouts.v, `run`).  Independently of
 the model, the property oracle (`oracle`) states C16 itself on the implementation's observations:
@@ -33,30 +34,38 @@ from .. import simnet
 ID = "C16"
 EXTRACT = "ExC16"
 TECHNIQUE = (
-    "Coq proof about a timed transition system over Q (one session: control readline armed at each command, "
-    "data-connection wait, per-operation data-stream deadlines, blocked control write), parametric in the wiring "
-    "'which timeout governs which await' which tools/py2v/gen_timeouts.py regenerates from the AST of common.py/server.py "
-    "on every run; tied to behaviour by running the real server on a virtual-clock in-memory network and comparing the "
-    "exact virtual instants of every release / 425 with the extracted model, for every script x stall point x timeout combination"
+    "Coq proof about a timed transition system over Q (one session: greeting write at the start, control readline armed at "
+    "each command, data-connection wait, per-operation data-stream deadlines, blocked control write), parametric in the wiring "
+    "'which timeout governs which await, combined how' which tools/py2v/gen_timeouts.py regenerates from the AST of "
+    "common.py/server.py on every run (including whether StreamIO.__init__ falls back with `X or timeout` or with "
+    "`timeout if X is None else X`); tied to behaviour by running the real server on a virtual-clock in-memory network and "
+    "comparing the exact virtual instants of every release / 425 with the extracted model, for every script x stall point x "
+    "timeout combination"
 )
 LEVEL_TEXT = (
-    "Proved (Closed under the global context) for every configuration (each timeout None or any rational), every live "
-    "state and every continuation of the timed model: C16_never_before_bound, C16_idle_drop_exact(_event), "
-    "C16_idle_release_bound, C16_next_line_rearms, C16_active_never_idle_dropped, C16_idle_drop_during_transfer, "
-    "C16_data_wait_425(_stall), C16_data_connect_in_time, C16_at_most_one_425_per_transfer, C16_data_stall_bound, "
-    "C16_data_stall_release_bound, C16_data_progress_rearms, C16_ctrl_write_stall_bound, C16_stall_ends_at_deadline, "
-    "C16_dropped_at_deadline, C16_unset_* (unset means unbounded), C16_zero_* (what the value 0 means where) and the "
-    "refutation C16_idle_zero_dropped_refuted (finding F15). The wiring the theorems speak about is re-derived from the "
-    "regenerated source facts (C16_wiring_pasv/epsv and 9 structural obligations). The tie to behaviour is sampled: "
-    "exact agreement of model and real server in VIRTUAL time on the enumerated corpus. Wall-clock promptness (event-loop "
-    "latency, OS timers, TCP) is runtime behaviour the model cannot exhibit; the property is therefore PARTIAL: proof about "
-    "the timed model + sampled agreement in virtual time."
+    "Proved (Closed under the global context) for every configuration (each timeout None or any rational: positive, zero, "
+    "negative), every live state and every continuation of the timed model: C16_effective_timeouts (every await is governed by "
+    "exactly the configured value: None is None, 0 is 0), C16_never_before_bound, C16_idle_drop_exact(_event), "
+    "C16_idle_release_bound (every value 0 <= i, zero included) and C16_idle_release_due, C16_next_line_rearms, "
+    "C16_active_never_idle_dropped, C16_idle_drop_during_transfer, C16_data_wait_425(_stall), C16_data_connect_in_time, "
+    "C16_at_most_one_425_per_transfer, C16_data_stall_bound, C16_data_stall_release_bound, C16_data_progress_rearms, "
+    "C16_ctrl_write_stall_bound, C16_stall_ends_at_deadline, C16_dropped_at_deadline, C16_unset_* (None, and only None, means "
+    "unbounded) and zero-is-zero-seconds everywhere: C16_idle_zero_drops_at_once / C16_idle_zero_release (control reads), "
+    "C16_zero_socket_ends_at_greeting / C16_zero_socket_ctrl_immediate (control writes), C16_zero_socket_data_immediate (data "
+    "reads/writes), C16_zero_wait_immediate_425 (data-connection wait). The wiring the theorems speak about is re-derived from "
+    "the regenerated source facts (C16_wiring_pasv/epsv and 9 structural obligations; the pre-repair `X or timeout` shape is "
+    "translated to a different wiring, C16_or_shape_differs_at_zero, so a revert breaks the obligation). The tie to behaviour is "
+    "sampled: exact agreement of model and real server in VIRTUAL time on the enumerated corpus. Wall-clock promptness "
+    "(event-loop latency, OS timers, TCP) is runtime behaviour the model cannot exhibit; the property is therefore PARTIAL: "
+    "proof about the timed model + sampled agreement in virtual time."
 )
 LEVEL_NOTE = (
     "Trusted: Coq kernel; extraction (ExtrOcamlBasic only) cross-checked with vm_compute; py2v; simnet (virtual clock, "
     "64 KiB flow-control window). Modelled, not verified: asyncio.wait_for/timeout semantics (deadline = start + T, "
-    "T <= 0 immediate; sampled by a dedicated stream), task scheduling order at equal instants (ties are excluded from "
-    "the corpus or tolerated, see docs/notes/C16.md), file back-end taking zero virtual time, real-time promptness."
+    "T <= 0 immediate, the awaited coroutine never starts; sampled by a dedicated stream), task scheduling order at equal "
+    "instants (ties are excluded from the corpus or tolerated, see docs/notes/C16.md), file back-end taking zero virtual time, "
+    "real-time promptness. No known finding: F16 (0 treated as 'unset' by StreamIO.__init__) is repaired; its recorded replay "
+    "is an ordinary corpus case."
 )
 TRUSTED = [
     "asyncio.wait_for(aw, T) raises TimeoutError at exactly start + T on the loop clock (T <= 0: at once, T None: never); "
@@ -541,6 +550,12 @@ def oracle(obs, cfg, eps=F(0)):
             rel = [b for a, b in blind if a <= t < b][0]
             if sock > 0 and rel >= t + sock:
                 cw_upper = t + sock + eps
+    # every reply write is under socket_timeout; a value <= 0 gives the first one -- the greeting, entered at the
+    # session's start -- zero seconds (None, and only None, disables the timeout)
+    if sock is not None and sock <= 0:
+        bounds.append(obs["t0"])
+        if E is None or E > obs["t0"] + eps:
+            bad.append(("c16-ctrl-write-zero-not-abandoned", f"socket_timeout={sock}: the greeting write is allowed zero seconds, session not closed by {obs['t0'] + eps} (closed at {E})"))
     if cw_upper is not None and (E is None or E > cw_upper):
         bad.append(("c16-ctrl-write-not-abandoned", f"socket_timeout={sock}: reply write blocked by a peer that does not read, session not closed by {cw_upper} (closed at {E})"))
     # ---- no release earlier than the earliest applicable bound; none at all without a bound
@@ -670,8 +685,28 @@ def run_matrix(ctx, cases, throttle=None, eps_of=None, stream="matrix"):
     return xs
 
 
+def former_witnesses():
+    """witnesses of repaired findings: ordinary corpus cases now, which must satisfy the oracle and agree with the model.
+    F16 (`read_timeout or timeout` turned 0 into None): its recorded replay docs/notes/C16-F15-replay.json
+    (idle_timeout=0, one command, then silence) and the same root cause on the write side (socket_timeout=0 with a
+    peer that does not read its control channel)."""
+    import json
+
+    f = pathlib.Path(__file__).resolve().parents[2] / "docs" / "notes" / "C16-F15-replay.json"
+    r = json.loads(f.read_text())["replay"]
+    val = lambda x: None if x is None else (int(F(x)) if F(x).denominator == 1 else F(x))
+    cases = [("F16-replay", r["k"], tuple(val(x) for x in r["cfg"]), deser_script(r["steps"]))]
+    for k in range(0, len(SCRIPTS["ctrl_not_reading"]) + 1):
+        cases.append(("ctrl_not_reading", k, (None, 0, 1), SCRIPTS["ctrl_not_reading"]))
+    for name in ("login_pwd", "retr_noconn", "stor"):
+        for k in range(0, len(SCRIPTS[name]) + 1):
+            cases.append((name, k, (0, None, 1), SCRIPTS[name]))
+            cases.append((name, k, (0.0, 30, 1), SCRIPTS[name]))
+    return cases
+
+
 def effective_timeouts_stream(ctx):
-    """StreamIO.__init__'s `X or timeout` on the real class vs the model's eval of the wiring"""
+    """StreamIO.__init__'s `timeout if X is None else X` on the real class vs the model's eval of the wiring"""
     vals = [None, 0, 2, 5, 30, F(1, 2), 0.0]
     cases = [(i, s) for i in vals for s in vals]
     out = ctx.model([(2, [[oq(F(i) if i is not None else None), oq(F(s) if s is not None else None), None]]) for i, s in cases])
@@ -750,13 +785,18 @@ def correspondence(ctx, thorough=None):
     ctx.extra["rule"] = (
         "cases = script (19 scripted sessions: login, PWD, PASV/EPSV + RETR/STOR/LIST/MLSD with the data channel connected "
         "early / late / never / held) x prefix length k (the peer stalls after k steps: every event index) x (idle, socket, "
-        "wait_future) in {None,0,2,5,30}^3 (all 125 for 5 scripts, a covering sample for the others in the quick tier; all in "
-        "thorough) + one read-throttled configuration + StreamIO `or` pairs + wait_for cases. A case is non-trivial when its "
+        "wait_future) in {None,0,2,5,30}^3 (all 125 for 6 scripts, a covering sample for the others in the quick tier; all in "
+        "thorough) + the witnesses of the repaired finding F16 (idle_timeout=0 / socket_timeout=0) as ordinary cases + one "
+        "read-throttled configuration + StreamIO effective-timeout pairs + wait_for cases. A case is non-trivial when its "
         "(script, k, configuration) triple is new; every case runs the real server once on the virtual clock."
     )
     xs = []
     xs += effective_timeouts_stream(ctx)
     wait_for_stream(ctx)
+    # first, so that a return of the repaired defect is reported with its recorded replay
+    fw = former_witnesses()
+    ctx.count("former_witness_cases", len(fw))
+    run_matrix(ctx, fw, stream="former-witness")
     cases = []
     for name, sc in SCRIPTS.items():
         for cfg in combos(rng, name, thorough):
@@ -776,7 +816,7 @@ def correspondence(ctx, thorough=None):
     # one throttled configuration: the read-throttle wait delays the arming of the idle timer
     tcases = []
     for name in ("login", "login_pwd", "login_slow", "retr_noconn", "retr_hold", "stor"):
-        for cfg in [(2, None, 2), (5, 5, 2), (30, 2, 5), (None, 2, 2), (5, None, None)]:
+        for cfg in [(2, None, 2), (5, 5, 2), (30, 2, 5), (None, 2, 2), (5, None, None), (0, 5, 2), (5, 0, 2)]:
             for k in range(1, len(SCRIPTS[name]) + 1):
                 tcases.append((name, k, cfg))
     ctx.count("throttled_cases", len(tcases))
@@ -807,13 +847,6 @@ def search(ctx):
         correspondence(ctx, thorough=True)
     except Exception as e:
         ctx.notes.append(f"search aborted: {e!r}")
-
-
-def known(ctx):
-    """F15: idle_timeout = 0 never drops a silent session"""
-    obs = run_case(SCRIPTS["login"], 1, (0, None, 1))
-    if obs["eof"] is None:
-        ctx.known_reproduced("F16-zero-idle-timeout-is-no-timeout", "idle_timeout=0: silent session still connected after 100 virtual seconds")
 
 
 def replay(ctx, data):
